@@ -120,6 +120,10 @@ class History:
                     for _ in range(rnd.randint(1, 3)):
                         v = rnd.choice([600, 5000 * scale, 10 ** 5 * scale + rnd.randrange(1000), 10 ** 7 * scale + rnd.randrange(1000), 10 ** 8 * scale + rnd.randrange(1000)])
                         dest = rnd.choice(sorted(self.known))
+                        if len(self.accounts) > 1 and rnd.random() < 0.5:
+                            other = sorted(a for a in self.known if self.addr_acc.get(a, 0) != 0)
+                            if other:
+                                dest = rnd.choice(other)
                         same = self.last_fund if (rnd.random() < 0.4 and self.last_fund in CH.utxos) else None
                         if same is not None and not self.cross_account and not self.allow_cross and \
                                 self.addr_acc.get(CH.utxos[same]['address'], 0) != self.addr_acc.get(dest, 0):
@@ -210,7 +214,12 @@ class History:
         w = ctx.w
         network = ctx.network
         acc = rnd.choice(self.accounts)
+        if len(self.accounts) > 1 and rnd.random() < 0.6:
+            acc = rnd.choice(self.accounts[1:])     # spending from a non-default account is the less travelled path
         bal = int(w.balance(account_id=acc))
+        if bal < 30000 and acc != 0:
+            acc = 0
+            bal = int(w.balance(account_id=acc))
         if bal < 30000:
             return
         addr, script = wallet_env.external_address(rnd, network)
@@ -417,7 +426,9 @@ def run_history(case, col):
         ops = []
         r = random.Random('c08-ops-%s' % case['wseed'])
         ops.append('fund_update')
-        for _ in range(case['n_ops'] - 1):
+        if case['kind'] == 'hd' and r.random() < 0.5:
+            ops += ['new_account', 'fund_update']
+        for _ in range(case['n_ops'] - len(ops)):
             ops.append(r.choice(OPS))
     for op in ops:
         H.step(op)
